@@ -31,6 +31,28 @@ os.environ.setdefault("NMEA2000_VERIF", "1")
 logging.disable(logging.CRITICAL)
 
 
+import contextlib
+
+
+@contextlib.contextmanager
+def debug_logging():
+    """Run a block with the library's logging fully enabled (DEBUG, records swallowed by a NullHandler): what the repository's own
+    test suite and its CLI's verbose mode configure.  Everything else in the checks runs with logging disabled."""
+    root, lib = logging.getLogger(), logging.getLogger("nmea2000")
+    old = (root.manager.disable, root.level, lib.level)
+    if not any(isinstance(h, logging.NullHandler) for h in root.handlers):
+        root.addHandler(logging.NullHandler())
+    logging.disable(logging.NOTSET)
+    root.setLevel(logging.DEBUG)
+    lib.setLevel(logging.DEBUG)
+    try:
+        yield
+    finally:
+        root.setLevel(old[1])
+        lib.setLevel(old[2])
+        logging.disable(old[0])
+
+
 # ---- controllable process clock --------------------------------------------------------------------
 # Installed before the library under test is imported, so that both `time.monotonic()` and `from time import monotonic`
 # inside it see these wrappers.  With offset 0 they are the real clocks; a check may "warp" time forward between two
